@@ -4,6 +4,7 @@
 From Coq Require Import ZArith List Bool.
 Import ListNotations.
 Require Import PV.Model.GraphAlg PV.Model.Split PV.Proofs.GraphSpec PV.Proofs.GraphBounded PV.Proofs.SplitBounded.
+Require Import PV.Proofs.ParMisProofs PV.Proofs.ParMisTerm.
 
 (* first-pass Ruge-Stuben: 0/1 flags, a C point whenever there is an edge, and on symmetric
    patterns an independent and dominating C set *)
@@ -26,6 +27,30 @@ Print Assumptions C13_bounded_cljp_cover.
 Theorem C13_bounded_pmis_independent_dominating : forall g, In g graphs_le4 -> ok_mis_parallel g = true.
 Proof. exact bounded_mis_parallel. Qed.
 Print Assumptions C13_bounded_pmis_independent_dominating.
+
+(* PMIS, UNBOUNDED: the splitting is the parallel maximal independent set of the symmetrised strength graph
+   with the kernel's codes (-1 undecided, 1 coarse, 0 fine).  For every symmetric graph of any size and any
+   weights: whenever the kernel model returns, the coarse points are independent and every fine point has a
+   coarse neighbour (dominating); with integer weights (ties by index) it always returns. *)
+Theorem C13_pmis_independent_dominating : forall (N : nat) (Gp Gj : list Z),
+  (forall i, (0 <= i < Z.of_nat N)%Z -> forall j, In j (nbrs Gp Gj i) -> (0 <= j < Z.of_nat N)%Z) ->
+  (forall i j, (0 <= i < Z.of_nat N)%Z -> In j (nbrs Gp Gj i) -> In i (nbrs Gp Gj j)) ->
+  forall (W : Type) (wt : Wt W) (weights : list W) (x0 : list Z),
+  length x0 = N -> (forall k, (0 <= k < Z.of_nat N)%Z -> get x0 k = (-1)%Z) ->
+  forall spl Nn, mis_parallel (Z.of_nat N) Gp Gj wt (-1)%Z 1%Z 0%Z x0 weights (-1)%Z = Some (spl, Nn) ->
+  length spl = N /\
+  (forall k, (0 <= k < Z.of_nat N)%Z -> get spl k = 1%Z \/ get spl k = 0%Z) /\
+  (forall i j, (0 <= i < Z.of_nat N)%Z -> get spl i = 1%Z -> In j (nbrs Gp Gj i) -> j <> i -> get spl j <> 1%Z) /\
+  (forall i, (0 <= i < Z.of_nat N)%Z -> get spl i <> 1%Z -> exists j, In j (nbrs Gp Gj i) /\ j <> i /\ get spl j = 1%Z).
+Proof. intros. eapply (mis_parallel_partial_correctness N Gp Gj H H0 (-1)%Z 1%Z 0%Z); eauto; discriminate. Qed.
+Print Assumptions C13_pmis_independent_dominating.
+Theorem C13_pmis_terminates : forall (N : nat) (Gp Gj : list Z),
+  (forall i, (0 <= i < Z.of_nat N)%Z -> forall j, In j (nbrs Gp Gj i) -> (0 <= j < Z.of_nat N)%Z) ->
+  (forall i j, (0 <= i < Z.of_nat N)%Z -> In j (nbrs Gp Gj i) -> In i (nbrs Gp Gj j)) ->
+  forall (weights x0 : list Z), length x0 = N -> (forall k, (0 <= k < Z.of_nat N)%Z -> get x0 k = (-1)%Z) ->
+  exists r, mis_parallel (Z.of_nat N) Gp Gj WtZ (-1)%Z 1%Z 0%Z x0 weights (-1)%Z = Some r.
+Proof. intros. eapply (mis_parallel_terminates N Gp Gj H H0 (-1)%Z 1%Z 0%Z); eauto; discriminate. Qed.
+Print Assumptions C13_pmis_terminates.
 
 Example C13_enumeration_size : length all_patterns = 133%nat.
 Proof. exact all_patterns_count. Qed.
